@@ -23,7 +23,7 @@ THEOREMS = [
 ]
 MANIFEST = {
     "level_text": "Kernel-checked, no bounds: C15_holds - on the small-step model of PID.Ask / ReceiveContext.build / Response / the contextCh and responseCh pools / UnboundedMailbox's recycling of the previous sentinel as the code is since fix d1a16fa (Mode.fixed; both pools in use; any number of callers with distinct request ids, a single consumer, deadlines as explicit steps, the CAS and the channel send of Response as separate steps) EVERY schedule satisfies both clauses: every reply an Ask receives is its own (C15_fixed_ownReply; invariant FInv: a receive context is in exactly one of {pool, unbuilt caller, mailbox, sentinel}, a pooled channel is empty and referenced by no pending request, a buffered value carries the id the channel was handed out for) and no Ask takes its timeout branch after Response for it has returned (C15_fixed_noLoss; invariant NInv: ids occur once, a pending context carries a built unanswered id and its caller waits on that context, a caller at its select has its reply in its channel as soon as Response returned). The code before the fix (Mode.asIs) is refuted for both clauses (C15_loss_witness 24 steps, C15_cross_witness 10 steps). Tie, re-run on every check: the REAL PID.Ask, build, Response, pools and mailbox run on a bare PID under controlled schedules and must produce the model's trace (atomic-site labels from yieldinject), results and final pool digest; deadlines are explicit context cancellations, never wall clock; the outcome oracle (own reply, no in-time reply lost) is evaluated on the implementation's own output.",
-    "level_note": "Partial in these respects: the dispatcher is not in the model (the harness plays the single worker: Dequeue + Response; that an actor has one worker at a time is property C01); actor.Ask (api.go) and actorSystem.handleRemoteAsk are driven by the harness too (ops b<k>, c<k>; api.go has no atomic site and cannot be instrumented, so a late store re-introduced there would show as a digest difference without a schedule point); SendSync/BatchAsk/ReceiveContext.Ask call PID.Ask; the grain Ask path (actorSystem.localSend + grainMailbox + GrainContext) has its own small-step model (Model.C15Grain, tied by `gask` cases) but no all-schedules theorem: it still has the late store - OPEN finding C15-F3, replayed on the real code, witness theorem C15.Grain.C15_grain_loss_witness, fix proposal fixes/C15-grain-no-late-store.diff; remote Ask is not modelled; the CAS-to-send window of Response is covered by the theorem but not by the tie (no schedule point between them). Trusted: a select with a ready reply takes the reply (the harness never makes both branches ready); sync/atomic is sequentially consistent.",
+    "level_note": "Partial in these respects: the dispatcher is not in the model (the harness plays the single worker: Dequeue + Response; that an actor has one worker at a time is property C01); actor.Ask (api.go) and actorSystem.handleRemoteAsk are driven by the harness too (ops b<k>, c<k>; api.go has no atomic site and cannot be instrumented, so a late store re-introduced there would show as a digest difference without a schedule point); SendSync/BatchAsk/ReceiveContext.Ask call PID.Ask; the grain Ask path (actorSystem.localSend + grainMailbox + GrainContext) has its own small-step model (Model.C15Grain, tied by `gask` cases; its late store on the timeout branches - former finding C15-F3, replayed on the real code, witness theorem C15.Grain.C15_grain_loss_witness - was removed by fix 6a916c2) but no all-schedules theorem of its own: the repaired grain protocol is the repaired actor protocol with the enqueue split into four atomic steps, covered by the tie and the oracle only; remote Ask is not modelled; the CAS-to-send window of Response is covered by the theorem but not by the tie (no schedule point between them). Trusted: a select with a ready reply takes the reply (the harness never makes both branches ready); sync/atomic is sequentially consistent.",
     "technique": "Lean 4 inductive invariants over a small-step model (all schedules), model replayed against the real code under controlled schedules (yield injection), refutation of the pre-fix code by kernel evaluation of concrete schedules",
 }
 TRUSTED = [
@@ -60,9 +60,10 @@ SITES = {
     "actor/grain_context.go:GrainContext.Response": ["CAS:responseClosed"],
     "actor/grain_mailbox.go:grainMailbox.tryEnqueue": ["Load:len", "CAS:len", "Store:next", "Swap:tail", "Store:next", "Add:len"],
 }
-# GMODE: variant of the grain path (actorSystem.localSend): "asis" = late responseClosed.Store(true) on the timeout
-# branches (open finding C15-F3); "fixed" = after fixes/C15-grain-no-late-store.diff
-GMODE = os.environ.get("VERIF_C15_GMODE", "asis")
+# GMODE: variant of the grain path (actorSystem.localSend): "fixed" = the code as it is since fix 6a916c2 (the timeout
+# branches do not touch the grain context); "asis" = the code before it (late responseClosed.Store(true), former finding
+# C15-F3), kept in the model for the witness theorem and the seeded revert
+GMODE = os.environ.get("VERIF_C15_GMODE", "fixed")
 if GMODE == "asis":
     SITES["actor/grain_engine.go:actorSystem.localSend"] = ["Store:responseClosed", "Store:responseClosed"]
 if MODE == "asis":
@@ -282,21 +283,11 @@ def oracle(case, impl, judge):
 
 
 def classify(case, impl, why):
-    """C15-F3 (open): on the grain path (`gask asis …`) an AskGrain times out although Response for it returned before its
-    select (`bad lost`), in a case with at least 3 Asks from at least 2 caller threads (a timed-out caller's late store needs
-    its context recycled and rebuilt by somebody else). Everything else — every failure of an `ask …` case, `bad cross`,
-    `bad hang`, any failure of `gask fixed …` — is a violation; the class returned for those only keeps the shrinker on the
-    same kind of property failure."""
-    if not why or not why.startswith("bad ") or len(why.split()) < 2:
-        return None
-    kind = why.split()[1]
-    if case.startswith("gask asis") and kind == "lost":
-        progs = [p.split() for p in case.split("|")[1].split(";")]
-        nasks = sum(1 for p in progs for o in p if o[0] in "abc")
-        ncallers = sum(1 for p in progs if any(o[0] in "abc" for o in p))
-        if nasks >= 3 and ncallers >= 2:
-            return "C15-F3"
-    return "unlisted:" + kind
+    """No open finding (C15-F1/F2 fixed by d1a16fa, C15-F3 by 6a916c2): every oracle failure is a violation. The class
+    returned here only keeps the shrinker on the same kind of PROPERTY failure (it is never a known-finding id)."""
+    if why and why.startswith("bad ") and len(why.split()) > 1:
+        return "unlisted:" + why.split()[1]
+    return None
 
 
 def is_trivial(case, impl):
